@@ -11,7 +11,7 @@ descs = graphprops.descs_C08
 
 
 def bounded(tier, seed, rep):
-    emission.run_parallel(rep, PROP, MOD, list(descs(tier)) + graphprops.deep_descs(PROP, tier))
+    emission.run_parallel(rep, PROP, MOD, list(graphprops.with_builds(list(descs(tier)) + graphprops.deep_descs(PROP, tier))))
 
 
 def replay(payload):
@@ -21,7 +21,7 @@ def replay(payload):
 RULE = ("emission contract evaluated on the real active_vertices_not_adjacent, active_vertices_not_adjacent_and_not_segmenting (graph form and specialised grid form): all 2^n patterns on every simple graph n<=4 (5) and on grids incl. 1xN / Nx1 up to 1x5, 3x3, 2x4 (quick) / 4x4, 1x8 (thorough); grid form and explicit-graph form on the same grid graph are both compared with the BFS oracle; every pattern is decided by one z3 query with the "
         "hidden variables existential; plus 'deep' instances too large to enumerate (paths/cycles up to 13 vertices, grids up to "
         "7x5 / 9x6, frames up to 3x3 / 4x3) with structured assignments needing deep rank certificates (all-active paths, snakes, "
-        "border-rooted zig-zag diagonal chains, perimeter loops) and their single-variable mutations; plus history sequences (all "
+        "border-rooted zig-zag diagonal chains, perimeter loops) and their single-variable mutations; every explicit graph also with edges handed to add_edge in the other orientation / mixed / with the Graph object USED once when half built ('grown'); plus history sequences (all "
         "instances again in one process, forwards/backwards, each grid followed by its transpose); distinct = distinct instances")
 TECHNIQUE = ("bounded stand-in for a contract on the real emitter (precondition / postcondition against a graph "
              "predicate / frame), decided exhaustively inside the stated scope with z3 over the reference semantics "
